@@ -51,15 +51,28 @@ class PostCtx:
             return True
         if z3.is_false(c):
             return False
+        # the real code usually forked on the very same condition: look it up in the path condition first
+        for h in self.pc:
+            if h.eq(c):
+                return True
+            if z3.is_not(h) and h.arg(0).eq(c):
+                return False
+            if z3.is_not(c) and c.arg(0).eq(h):
+                return False
         if self._solver is None:
             self._solver = z3.Solver()
-            self._solver.set("timeout", 5000)
+            self._solver.set("timeout", 20000)
             for h in self.pc:
                 self._solver.add(h)
-        if self._solver.check(z3.Not(t)) == z3.unsat:
+        r1 = self._solver.check(z3.Not(t))
+        if r1 == z3.unsat:
             return True
-        if self._solver.check(t) == z3.unsat:
+        r2 = self._solver.check(t)
+        if r2 == z3.unsat:
             return False
+        if r1 == z3.unknown or r2 == z3.unknown:
+            # the solver could not tell: undecided, never a verdict
+            raise EngineError(f"spec guard could not be decided on this path (solver unknown): {c}")
         raise SpecUndetermined(t)
 
     def branch(self, cond):
@@ -385,6 +398,15 @@ def run_job(job):
                     path_model = psolver.model()
             res["reach_checked"] += 1
             if r == z3.unsat:
+                if len(p.pc) > p.ghost.get("_n_pre", 0):
+                    # the path oracle over-approximates (a feasibility query that timed out counts as feasible):
+                    # a path whose own condition is unsatisfiable is dropped; contradictory *preconditions* or
+                    # contradictory spec side conditions still crash below
+                    pre_only = satisfiable(p.pc[: p.ghost.get("_n_pre", 0)], timeout_s=10.0)
+                    path_only = satisfiable(p.pc, timeout_s=20.0)
+                    if pre_only != z3.unsat and path_only == z3.unsat:
+                        res["infeasible_paths_dropped"] = res.get("infeasible_paths_dropped", 0) + 1
+                        continue
                 res["status"] = "crash"
                 res["error"] = f"path {pi} of {contract.name}[{cid}] has contradictory hypotheses (vacuous; canary proved)"
                 return res
@@ -442,6 +464,10 @@ def run_job(job):
                     res["violations"].append(viol)
                 res["obligations"].append(entry)
         res["rebound"] = sorted(rebound)
+        if res.get("infeasible_paths_dropped", 0) >= len(paths):
+            res["status"] = "crash"
+            res["error"] = "every explored path is infeasible (contradictory hypotheses)"
+            return res
         if n_obl == 0:
             res["status"] = "crash"
             res["error"] = "zero obligations"
